@@ -18,6 +18,7 @@ type zzLoop struct {
 	requests [][]byte
 	replies  [][]byte
 	procErr  error
+	unread   int
 }
 
 func (t *zzLoop) Open() error                        { return nil }
@@ -42,6 +43,7 @@ func (t *zzLoop) Flush(ctx context.Context) error {
 	inBuf.Write(req)
 	_, err := t.proc.Process(ctx, thrift.NewTBinaryProtocol(inBuf, true, true), thrift.NewTBinaryProtocol(outBuf, true, true))
 	t.procErr = err
+	t.unread += inBuf.Len() // request bytes the processor did not consume
 	reply := append([]byte{}, outBuf.Bytes()...)
 	t.replies = append(t.replies, reply)
 	t.in = append(t.in, reply...)
@@ -185,6 +187,7 @@ func H_C08_compute() {
 	}
 	// exactly one reply message per call: nothing is left on the connection and the next call works
 	A(len(loop.in) == 0, "the client consumed the whole reply: one request is answered by exactly one message")
+	A(loop.unread == 0, "the processor consumed the whole request")
 	h.plain = zzrt.Int32("plain")
 	pl, err2 := cl.Plain(context.Background())
 	A(err2 == nil && pl == h.plain, "the next call on the same connection gets its own reply")
@@ -258,6 +261,7 @@ func H_C08_sequence() {
 		}
 	}
 	A(len(h.calls) == 5, "five handler invocations")
+	A(loop.unread == 0 && len(loop.in) == 0, "every request and every reply was consumed entirely")
 	zzrt.Cover("end")
 }
 
@@ -273,6 +277,12 @@ func H_C08_unknown_method(n int) {
 	ip2 := thrift.NewTBinaryProtocol(inBuf, true, true)
 	ip2.WriteMessageBegin(name, thrift.CALL, seq)
 	ip2.WriteStructBegin("args")
+	ip2.WriteFieldBegin("a", thrift.I32, 1)
+	ip2.WriteI32(zzrt.Int32("arg"))
+	ip2.WriteFieldEnd()
+	ip2.WriteFieldBegin("s", thrift.STRING, 2)
+	ip2.WriteString("xy")
+	ip2.WriteFieldEnd()
 	ip2.WriteFieldStop()
 	ip2.WriteStructEnd()
 	ip2.WriteMessageEnd()
@@ -281,6 +291,19 @@ func H_C08_unknown_method(n int) {
 	zzrt.Assert(len(h.calls) == 0, "no handler method runs")
 	m := zzParseMsg(outBuf.Bytes())
 	zzrt.Assert(m.ok && m.typ == 3 && m.name == name && m.seq == seq, "reply is <name, EXCEPTION, same seqid>")
+	// the connection stays usable: the unknown request was consumed entirely and the next call is served
+	zzrt.Assert(inBuf.Len() == 0, "the whole request of the unknown method was consumed")
+	outBuf.Reset()
+	h.plain = zzrt.Int32("plain")
+	ip2.WriteMessageBegin("plain", thrift.CALL, seq+1)
+	ip2.WriteStructBegin("args")
+	ip2.WriteFieldStop()
+	ip2.WriteStructEnd()
+	ip2.WriteMessageEnd()
+	ok2, err2 := proc.Process(context.Background(), ip, op)
+	zzrt.Assert(ok2 && err2 == nil && len(h.calls) == 1 && h.calls[0] == "plain", "the next call on the same connection reaches its handler")
+	m2 := zzParseMsg(outBuf.Bytes())
+	zzrt.Assert(m2.ok && m2.typ == 2 && m2.name == "plain" && m2.seq == seq+1, "and is answered by <plain, REPLY, its seqid>")
 	zzrt.Cover("end")
 }
 
